@@ -21,6 +21,7 @@ from .libmp import (
     ComplexResult,
     mpf_hash, mpc_hash)
 from .matrices.matrices import _matrix
+from .ctx_mp_python import _constant
 
 mpi_zero = (fzero, fzero)
 
@@ -29,6 +30,9 @@ from .ctx_base import StandardBaseContext
 new = object.__new__
 
 def convert_mpf_(x, prec, rounding):
+    # (a lazy constant of the mp context has no value of its own: it is
+    # evaluated here, in the requested direction)
+    if isinstance(x, _constant) and prec: return x.func(prec, rounding)
     if hasattr(x, "_mpf_"): return x._mpf_
     if isinstance(x, int_types): return from_int(x, prec, rounding)
     if isinstance(x, float): return from_float(x, prec, rounding)
